@@ -405,6 +405,8 @@ class Schema:
             r = eng.as_ref(args[0], st)
             eng.write_field(st, r, args[0].cls, nm, args[2])
             return sv_none()
+        if name == "int.__index__":
+            return args[0]
         if name == "super":
             return SV("super", x=(eng.cur_fn.cls, st.env.get(eng.cur_fn.params()[0][0])))
         if name.startswith("intervaltree.Interval") or name == "Interval":
@@ -499,6 +501,8 @@ class Schema:
                 return sv_int(z3.If(d > 0, d, 0))
         if k in ("ref", "val") and obj.cls == "$IntervalTree":
             return self.tree_method(eng, obj, name, args, st)
+        if k in ("int", "bool") and name == "__index__":
+            return obj
         raise Unsupported("method .%s on %s" % (name, k))
 
     def set_method(self, eng, obj, name, args, st):
@@ -568,6 +572,32 @@ class Schema:
         raise Unsupported("dict.%s" % name)
 
     def list_method(self, eng, obj, name, args, st):
+        if name == "insert":
+            # list.insert(i, x): index clamped into [0, len] (negative indices count from the end)
+            i = eng.as_int(args[0], st)
+            n = obj.x
+            i = z3.If(i < 0, z3.If(i + n < 0, 0, i + n), z3.If(i > n, n, i))
+            new_items = fresh("ins", z3.ArraySort(Int, Val))
+            j = fresh("j", Int)
+            st.define(z3.ForAll([j], z3.Select(new_items, j) == z3.If(j < i, z3.Select(obj.t, j),
+                                                                        z3.If(j == i, to_val(args[1]),
+                                                                              z3.Select(obj.t, j - 1)))))
+            self._wb(obj, SV("list", new_items, x=n + 1, cls=obj.cls), st)
+            st.ghost_last_insert = i
+            return sv_none()
+        if name == "index":
+            # first position holding an equal element; ValueError if absent
+            x = to_val(args[0])
+            k = fresh("idx", Int)
+            j = fresh("j", Int)
+            absent = z3.ForAll([j], z3.Implies(z3.And(0 <= j, j < obj.x), z3.Select(obj.t, j) != x))
+            s2 = st.fork()
+            s2.assume(absent)
+            eng.exc_paths.append((s2, Exc("ValueError")))
+            st.assume(z3.Not(absent))
+            st.define(z3.And(0 <= k, k < obj.x, z3.Select(obj.t, k) == x,
+                             z3.ForAll([j], z3.Implies(z3.And(0 <= j, j < k), z3.Select(obj.t, j) != x))))
+            return sv_int(k)
         if name == "append":
             new = SV("list", z3.Store(obj.t, obj.x, to_val(args[0])), x=obj.x + 1, cls=obj.cls)
             self._wb(obj, new, st)
